@@ -6,6 +6,7 @@ from vf.runner import Acc
 from vf.spec import bits
 
 ID = "C08"
+OPT_QUICK_ALL = True      # every partition also in a child interpreter started with -O
 LEVEL = "exploration"
 TECHNIQUE = "exhaustive enumeration of sense buffers (response codes x valid bit x sense keys x all 65536 ASC/ASCQ pairs x all lengths 1..252 x filler bytes); construction, str(), print() and print_data must not raise and key/ASC/ASCQ are compared with SPC's positions extracted by the independent bit oracle"
 RULE = ("quick: all 65536 ASC/ASCQ pairs x response codes {70h,72h} (key 5) + {71h,73h} (key 6); 16 keys x 9 response codes {70-73,00,6F,74,7E,7F} "
